@@ -117,6 +117,33 @@ def binary_unit(u) -> Stats:
             for op, (got, want) in res.items():
                 if got != want:
                     st.violation(f"[sets n={n}] {a} {op} {b} = {got}, finite-set semantics give {want}", n=n, kind="binary", a=a, b=b, op=op)
+            # value semantics: no operation changes an operand, and the augmented forms rebind the name only - exactly like
+            # `t = s; t |= x` on frozensets (or on the integer ids), which leaves s and every container holding s alone
+            if A_.id != a or B_.id != b:
+                st.violation(f"[sets n={n}] a binary operation on ({a}, {b}) changed an operand: now ({A_.id}, {B_.id})", n=n, kind="binary", a=a, b=b, op="operands")
+                A_, B_ = co.Coalition(a), co.Coalition(b)
+            for op, want in (("|=", idof(SA | SB)), ("&=", idof(SA & SB)), ("-=", idof(SA - SB))):
+                orig = co.Coalition(a)
+                holder = {orig: a}
+                h0 = hash(orig)
+                t = orig
+                try:
+                    if op == "|=":
+                        t |= B_
+                    elif op == "&=":
+                        t &= B_
+                    else:
+                        t -= B_
+                except Exception as e:  # noqa: BLE001
+                    st.violation(f"[sets n={n}] {a} {op} {b} raised {type(e).__name__}: {e}", n=n, kind="binary", a=a, b=b, op=op)
+                    continue
+                st.transitions += 1
+                if t.id != want:
+                    st.violation(f"[sets n={n}] t = {a}; t {op} {b} gives {t.id}, finite-set semantics give {want}", n=n, kind="binary", a=a, b=b, op=op)
+                if orig.id != a or B_.id != b or hash(orig) != h0 or holder.get(co.Coalition(a)) != a:
+                    st.violation(f"[sets n={n}] s = {a}; t = s; t {op} {b} changed s itself to {orig.id} (frozensets and integer ids keep s; a dict keyed by s "
+                                 f"no longer finds it)", n=n, kind="binary", a=a, b=b, op=op + " aliasing")
+                    B_ = co.Coalition(b)
             if a and b and a != b:
                 st.nontrivial += 1
         got = sorted(x.id for x in co.exclude_coalition(A_, co.all_coalitions(n)))
@@ -266,8 +293,73 @@ def scale_unit(u) -> Stats:
     return st
 
 
+TOLS = ((1e-9, 0.0), (1e-9, 1e-12), (1e-9, 1e-3), (0.0, 1e-6), (1e-3, 0.0), (0.0, 0.0), (1e-6, 1e-6), (1e-12, 1e-9))
+
+
+def tol_verdict(fv, n: int, rtol: float, atol: float):
+    """Verdict of is_superadditive(game, rtol, atol) by the documented rule `excess <= atol + rtol*|v(U)|` (numpy.isclose) in exact
+    rationals. True / False outside a thin band around the threshold (0.1 % of the tolerance + 4 ulp of the operands), None inside."""
+    from fractions import Fraction
+    fr = [Fraction(x) for x in fv]
+    verdict = True
+    for u_ in range(1, 1 << n):
+        for a, b in A.proper_splits(u_):
+            ex = fr[a] + fr[b] - fr[u_]
+            if ex <= 0:
+                continue
+            tol = Fraction(atol) + Fraction(rtol) * abs(fr[u_])
+            ulp = Fraction(4, 2 ** 52) * max(abs(fr[a]), abs(fr[b]), abs(fr[u_]))
+            if ex > tol * Fraction(1001, 1000) + ulp:
+                return False
+            if ex > tol * Fraction(999, 1000) - ulp:
+                verdict = None
+    return verdict
+
+
+def tolerance_unit(u) -> Stats:
+    """The two tolerance parameters are configuration: every combination of a small menu, on additive games with non-dyadic weights
+    whose grand value is lowered by a relative eps (the excess straddles every threshold of the menu) and on lattice games in odd units."""
+    _, k = u
+    from incomplete_cooperative.game_properties import is_superadditive
+    st = Stats()
+    weights = ((1 / 3, 1 / 7, 1 / 11, 1 / 13), (0.1, 0.2, 0.3, 0.7), (100.1, 200.2, 300.3, 50.7), (1 / 3, -1 / 7, 2 / 9, -1 / 13))
+    games = []
+    w = weights[k]
+    for unit in (1.0, 1e-6, 1e9):
+        for m in (3, 4):
+            base = [float(sum(w[i] * unit for i in range(m) if s >> i & 1)) for s in range(1 << m)]
+            for eps in (0.0, 1e-14, 1e-11, 1e-10, 3e-9, 1e-7, 1e-5, 2e-3, 1e-1):
+                for which in ((1 << m) - 1, 3):
+                    fv = list(base)
+                    fv[which] = fv[which] - abs(fv[which]) * eps
+                    games.append((m, fv, f"additive weights {w[:m]} x {unit:g}, v({which}) lowered by relative {eps:g}"))
+    for m, fv, what in games:
+        g = envs.full_game(fv)
+        for rtol, atol in TOLS:
+            want = tol_verdict(fv, m, rtol, atol)
+            st.states += 1
+            if want is None:
+                continue
+            st.transitions += 1
+            st.evals += 1
+            try:
+                got = bool(is_superadditive(g, rtol=rtol, atol=atol))
+            except Exception as e:  # noqa: BLE001
+                st.violation(f"[predicates n={m}] is_superadditive(rtol={rtol:g}, atol={atol:g}) raised {type(e).__name__}: {e}", n=m, kind="tol", values=fv, rtol=rtol, atol=atol, expect=want)
+                return st
+            st.outcomes.add((got, rtol, atol))
+            if want is False:
+                st.nontrivial += 1
+            if got != want:
+                st.violation(f"[predicates n={m}] is_superadditive(rtol={rtol:g}, atol={atol:g}) = {got} on {what}; by the documented rule "
+                             f"(excess <= atol + rtol*|v(U)|, decided in exact rationals) the verdict is {want}", n=m, kind="tol", values=fv, rtol=rtol, atol=atol, expect=want)
+                if st.nviol >= 3:
+                    return st
+    return st
+
+
 def dispatch(u) -> Stats:
-    return {"unary": unary_unit, "binary": binary_unit, "pred": predicate_unit, "scale": scale_unit}[u[0]](u)
+    return {"unary": unary_unit, "binary": binary_unit, "pred": predicate_unit, "scale": scale_unit, "tol": tolerance_unit}[u[0]](u)
 
 
 def run(run: Run) -> None:
@@ -293,10 +385,12 @@ def run(run: Run) -> None:
         tot = 5 ** 7
         us += [("pred", 3, (-2, -1, 0, 1, 3), i, min(i + 3125, tot), False) for i in range(0, tot, 3125)]
     us += [("scale", i, min(i + 2048, 4 ** 7)) for i in range(0, 4 ** 7, 2048)]
+    us += [("tol", k) for k in range(4)]
     run.rule = ("every coalition for n=1..10 (unary operations, sub-/super-coalition enumeration: 3^n elements per n), every ordered pair for n<=6 "
                 "(binary operators), object API vs id-array API vs Python frozenset; predicates on ALL games over {-1,0,1,2}^7 (n=3), {0,1}^15 and "
                 "{0,-1}^15 (n=4), supermodularity on {0,1,2}^7, plus relative-1e-6 perturbations of tight grand-coalition constraints; the whole n=3 lattice again in tiny and huge units and additive "
-                "games with non-dyadic weights at scales 1, 1e9, 1e12 (the tolerance is relative). "
+                "games with non-dyadic weights at scales 1, 1e9, 1e12 (the tolerance is relative); eight (rtol, atol) combinations on additive games whose "
+                "grand / pair value is lowered by relative 0 .. 1e-1; augmented assignment (|=, &=, -=) on an aliased operand that is also a dict key. "
                 "non-trivial = proper non-empty coalitions / distinct pairs / games where the predicates disagree with each other")
     run.bounds = {"n_unary": [1, 10 if quick else 12], "n_binary": [1, 6 if quick else 7], "object_enumeration_up_to_n": 8 if quick else 10}
     run.assumptions = ["the inside of the documented 1e-9 relative band of is_superadditive is left unconstrained"]
@@ -314,6 +408,9 @@ def replay(doc: dict):
         from incomplete_cooperative.game_properties import is_monotone_decreasing, is_sam, is_superadditive
         v = doc["values"]
         g = envs.full_game(v)
+        if kind == "tol":
+            got = bool(is_superadditive(g, rtol=doc["rtol"], atol=doc["atol"]))
+            return got != doc["expect"], f"is_superadditive({v}, rtol={doc['rtol']}, atol={doc['atol']}) = {got}, expected {doc['expect']}"
         if kind in ("predicate-perturbed", "scaled"):
             got = bool(is_superadditive(g))
             return got != doc["expect"], f"is_superadditive({v}) = {got}, expected {doc['expect']}"
